@@ -180,7 +180,7 @@ fn got_json(g: &Got) -> Value {
 }
 fn matches(exp: &Value, g: &Got, vals: &[f32], m: &TMap) -> bool {
     match (s(exp, "c"), g) {
-        ("err", Got::Num(Err(e))) | ("err", Got::Bool(Err(e))) => err_code(e) == i(exp, "e"),
+        ("err", Got::Num(Err(e))) | ("err", Got::Bool(Err(e))) => TIMES_ONLY.load(std::sync::atomic::Ordering::Relaxed) || err_code(e) == i(exp, "e"),
         ("none", Got::Num(Ok(None))) | ("none", Got::Bool(Ok(None))) => true,
         ("some", Got::Num(Ok(Some(d)))) => {
             let pu = POW_ULPS.load(std::sync::atomic::Ordering::Relaxed);
@@ -192,8 +192,10 @@ fn matches(exp: &Value, g: &Got, vals: &[f32], m: &TMap) -> bool {
             };
             d.time == m.t(i(exp, "t")) && val_ok
         }
-        ("some", Got::Bool(Ok(Some(d)))) => d.time == m.t(i(exp, "t")) && Some(d.value) == exp["v"].as_bool(),
-        _ => false,
+        ("some", Got::Bool(Ok(Some(d)))) => d.time == m.t(i(exp, "t")) && (TIMES_ONLY.load(std::sync::atomic::Ordering::Relaxed) || Some(d.value) == exp["v"].as_bool()),
+        // timestamps-only mode (C03): whether a result is present, absent or an error is C02's business; only the timestamps of results
+        // that are present on both sides are compared
+        _ => TIMES_ONLY.load(std::sync::atomic::Ordering::Relaxed),
     }
 }
 fn got_eq(a: &Got, b: &Got) -> bool {
